@@ -906,8 +906,14 @@ func (c *Client) q(m *spb.ModifyRequest) {
 	c.awaiting.RLock()
 	defer c.awaiting.RUnlock()
 
-	if !chIsClosed(c.sendExitCh) {
-		c.qs.modifyCh <- m
+	if chIsClosed(c.sendExitCh) {
+		return
+	}
+	// The sender can exit whilst we are blocked writing to a full channel, so
+	// stop waiting as soon as it signals that it has gone away.
+	select {
+	case c.qs.modifyCh <- m:
+	case <-c.sendExitCh:
 	}
 }
 
